@@ -10,7 +10,7 @@ from common import fbits, show_floats, show_ints
 import formulas, formula_cases
 
 PROP = 'C02'
-LEAN_TARGETS = ['Props.C02']
+LEAN_TARGETS = ['Props.C02', 'genformulas']      # genformulas: the definitions generated from the source on this run, executable
 REQUIRED_THEOREMS = ['Props.C02.linear_vjp', 'Props.C02.mse_vjp', 'Props.C02.nll_vjp', 'Props.C02.dropout_vjp', 'Props.C02.conv1d_vjp', 'Props.C02.conv2d_vjp',
                      'Props.C02.avgpool_vjp', 'Props.C02.relu_vjp', 'Props.C02.sigmoid_vjp', 'Props.C02.maxpool_vjp_subgradient', 'Props.C02.unfold_fold_vjp', 'Props.C02.bce_vjp', 'Props.C02.bce_scalar_deriv', 'Props.C02.bce_logits_vjp',
                      'Props.C02.bce_logits_factor_within_eps', 'Props.C02.maxpool2d_vjp_subgradient', 'Props.C02.batch_norm_eval_vjp', 'Props.C02.batch_norm_train_vjp',
